@@ -850,12 +850,13 @@ def classify_timescale(order, c, ratio_scaled, ratio_base, rk45_scaled, rk45_bas
     accepted when h * err <= 1: the same problem written in a c-times faster time unit (steps c times shorter) is
     integrated ~c^(8/9) times less accurately (measured: x50 for c = 1e2, x2100 for c = 1e4), while RK45 (correct norm)
     is not affected.  Recognised by exactly that: order 8, c >= 100, accuracy loss >= min(c^0.5, 100) relative to the
-    unscaled twin on the same output grid (the loss saturates for c >= 1e6), RK45 twin unchanged within a factor 5."""
+    unscaled twin on the same output grid (the loss saturates for c >= 1e6), RK45 twin unchanged (within a factor 5 or
+    still below a tenth of its bound)."""
     if order != 8 or c < 100:
         return None
     growth = ratio_scaled / max(ratio_base, 1e-3)
-    twin = rk45_scaled / max(rk45_base, 1e-3)
-    return MECH_DOP_H if growth >= min(c ** 0.5, 100.0) and twin <= 5.0 else None
+    twin_unaffected = rk45_scaled <= max(5.0 * rk45_base, 10.0)      # ratios are in units of tol*kappa*scale; the bound is >= 100
+    return MECH_DOP_H if growth >= min(c ** 0.5, 100.0) and twin_unaffected else None
 
 
 def m4_timescale(ctx, env, n_base, scales, tols):
